@@ -283,6 +283,11 @@ func (ex *Exec) callStatic(st *State, fn *ssa.Function, args []Value, bind []Val
 			return r
 		}
 	}
+	if ex.abstractFns[name] {
+		// byte-level helper outside the verified subset: uninterpreted, assumed pure and panic-free
+		ex.note("function outside the subset abstracted as an uninterpreted pure function: " + name)
+		return ex.opaqueCall(st, "abs:"+name, nil, args, fn.Signature.Results())
+	}
 	local := fn.Pkg != nil && fn.Pkg.Pkg.Path() == pkgPath
 	if !local && fn.Name() == "init" {
 		return nil // other packages' initialisers
@@ -323,6 +328,9 @@ func (ex *Exec) opaqueCall(st *State, name string, pre []*Term, args []Value, rt
 	if tup, ok := rt.(*types.Tuple); ok {
 		if tup.Len() == 0 {
 			return nil
+		}
+		if tup.Len() == 1 {
+			return mkRes(tup.At(0).Type(), "")
 		}
 		tv := &TupleVal{}
 		for i := 0; i < tup.Len(); i++ {
@@ -604,7 +612,10 @@ func (ex *Exec) appendBuiltin(st *State, args []Value, x *ssa.Call) Value {
 			return r
 		}
 	}
-	s := args[0].(*SliceVal)
+	s, ok0 := args[0].(*SliceVal)
+	if !ok0 {
+		panic(unsupported(fmt.Sprintf("append to %T (%v) of %T at %s", args[0], args[0], args[1], ex.pos(x.Pos()))))
+	}
 	t, ok := args[1].(*SliceVal)
 	if !ok {
 		panic(unsupported(fmt.Sprintf("append with %T", args[1])))
